@@ -1,7 +1,8 @@
 /-
-Helper lemmas for the staging statements about M-NeoxScript (Staging/NeoxScriptProps.lean):
-well-formedness of the global script, group-specific communication, roots vs. assignment.
-`NCfgOK` / `toG` were moved here verbatim from Staging/NeoxScriptProps.lean.
+Helper lemmas for the statements about M-NeoxScript (Props/C11.lean, section NeoxScript):
+well-formedness of the global script, group-specific communication, roots vs. assignment,
+passes that do not fire (accumulation / deferred factor updates) only gather.
+`NCfgOK` / `toG` are defined here.
 -/
 import KfacVerif.Model.NeoxScript
 import KfacVerif.Model.Sched
@@ -271,31 +272,58 @@ theorem Inv_gathers (c : NeoxS.Cfg) (h : TopoOK c.t) {p : Nat} (hp : p < c.t.pp)
   exact Inv_emitIf c s _ _ _ _ hs fun hlen =>
     Ok_model c h hp (List.mem_range.1 hd) hlen _ _ _ (by decide) (fun hk => by cases hk)
 
-theorem Inv_fwdLayer (c : NeoxS.Cfg) (h : TopoOK c.t) {p : Nat} (hp : p < c.t.pp) (s : St) (l : Layer)
-    (hs : Inv c s) : Inv c (fwdLayer c p s l) := by
-  unfold fwdLayer
+theorem Inv_reduceA (c : NeoxS.Cfg) (h : TopoOK c.t) {p : Nat} (hp : p < c.t.pp) (s : St) (l : Layer)
+    (hs : Inv c s) : Inv c (reduceA c p s l) := by
+  unfold reduceA
   cases l.par
   · exact Inv_reduceFactor c s _ _ hs (KeyOk_stage c h hp)
-  · exact Inv_reduceFactor c _ _ _ (Inv_gathers c h hp _ s hs)
-      (KeyOk_data c h hp (Nat.mod_lt _ h.mp))
+  · exact Inv_reduceFactor c s _ _ hs (KeyOk_data c h hp (Nat.mod_lt _ h.mp))
 
-theorem Inv_bwdLayer (c : NeoxS.Cfg) (h : TopoOK c.t) {p : Nat} (hp : p < c.t.pp) (s : St) (l : Layer)
-    (hs : Inv c s) : Inv c (bwdLayer c p s l) := by
-  unfold bwdLayer
+theorem Inv_reduceG (c : NeoxS.Cfg) (h : TopoOK c.t) {p : Nat} (hp : p < c.t.pp) (s : St) (l : Layer)
+    (hs : Inv c s) : Inv c (reduceG c p s l) := by
+  unfold reduceG
   cases l.par
-  · exact Inv_reduceFactor c _ _ _ (Inv_gathers c h hp _ s hs)
-      (KeyOk_data c h hp (Nat.mod_lt _ h.mp))
+  · exact Inv_reduceFactor c s _ _ hs (KeyOk_data c h hp (Nat.mod_lt _ h.mp))
   · exact Inv_reduceFactor c s _ _ hs (KeyOk_stage c h hp)
+
+theorem Inv_fwdLayer (c : NeoxS.Cfg) (h : TopoOK c.t) {p : Nat} (hp : p < c.t.pp) (fire : Bool) (s : St)
+    (l : Layer) (hs : Inv c s) : Inv c (fwdLayer c p fire s l) := by
+  have h1 : Inv c (match l.par with
+      | .col => s
+      | .row => (List.range c.t.dp).foldl
+          (fun s d => emitIf s (modelGroup c p d) .allgather (c.tokens * (l.inF / c.t.mp)) 0) s) := by
+    cases l.par
+    · exact hs
+    · exact Inv_gathers c h hp _ s hs
+  unfold fwdLayer
+  cases fire
+  · exact h1
+  · exact Inv_reduceA c h hp _ l h1
+
+theorem Inv_bwdLayer (c : NeoxS.Cfg) (h : TopoOK c.t) {p : Nat} (hp : p < c.t.pp) (fire : Bool) (s : St)
+    (l : Layer) (hs : Inv c s) : Inv c (bwdLayer c p fire s l) := by
+  have h1 : Inv c (match l.par with
+      | .row => s
+      | .col => (List.range c.t.dp).foldl
+          (fun s d => emitIf s (modelGroup c p d) .allgather (c.tokens * (l.outF / c.t.mp)) 0) s) := by
+    cases l.par
+    · exact Inv_gathers c h hp _ s hs
+    · exact hs
+  unfold bwdLayer
+  cases fire
+  · exact h1
+  · exact Inv_reduceG c h hp _ l h1
 
 theorem Inv_trainPass (c : NeoxS.Cfg) (h : TopoOK c.t) (s : St) (hs : Inv c s) : Inv c (trainPass c s) := by
   unfold trainPass
   split
   · exact hs
-  · refine foldl_inv (Inv c) _ _ s hs ?_
+  · show Inv c ((List.range c.t.pp).foldl _ s)
+    refine foldl_inv (Inv c) _ _ s hs ?_
     intro s p hp hs
     have hp := List.mem_range.1 hp
-    refine foldl_inv (Inv c) _ _ _ ?_ (fun s l _ hs => Inv_bwdLayer c h hp s l hs)
-    exact foldl_inv (Inv c) _ _ _ hs (fun s l _ hs => Inv_fwdLayer c h hp s l hs)
+    refine foldl_inv (Inv c) _ _ _ ?_ (fun s l _ hs => Inv_bwdLayer c h hp _ s l hs)
+    exact foldl_inv (Inv c) _ _ _ hs (fun s l _ hs => Inv_fwdLayer c h hp _ s l hs)
 
 theorem Inv_precondLayer (c : NeoxS.Cfg) (h : TopoOK c.t) {p : Nat} (hp : p < c.t.pp) (s : St) (l : Layer)
     (hl : l ∈ c.stages.getD p []) (hs : Inv c s) : Inv c (precondLayer c p s l) := by
@@ -330,15 +358,29 @@ theorem Inv_precondLayer (c : NeoxS.Cfg) (h : TopoOK c.t) {p : Nat} (hp : p < c.
   · intro s m hm hs
     exact Inv_emitIf c s _ _ _ _ hs fun hlen => Ok_dataB c h hp (List.mem_range.1 hm) hd hlen _
 
+theorem Inv_stepReduce (c : NeoxS.Cfg) (h : TopoOK c.t) (s : St) (hs : Inv c s) :
+    Inv c (if (!c.hook && s.steps % c.fus == 0) = true then
+      (List.range c.t.pp).foldl (fun s p =>
+        (c.stages.getD p []).reverse.foldl (fun s l => reduceG c p (reduceA c p s l) l) s) s
+      else s) := by
+  split
+  · refine foldl_inv (Inv c) _ _ s hs ?_
+    intro s p hp hs
+    have hp := List.mem_range.1 hp
+    exact foldl_inv (Inv c) _ _ _ hs
+      (fun s l _ hs => Inv_reduceG c h hp _ l (Inv_reduceA c h hp s l hs))
+  · exact hs
+
 theorem Inv_stepOp (c : NeoxS.Cfg) (h : TopoOK c.t) (s : St) (hs : Inv c s) : Inv c (stepOp c s) := by
   unfold stepOp
-  have key : Inv c (NeoxS.flush ((List.range c.t.pp).foldl
-      (fun s p => (c.stages.getD p []).reverse.foldl (precondLayer c p) s) (NeoxS.flush (NeoxS.flush s)))) := by
-    refine Inv_flush c _ (foldl_inv (Inv c) _ _ _ (Inv_flush c _ (Inv_flush c _ hs)) ?_)
+  have key : ∀ s0, Inv c s0 → Inv c (NeoxS.flush ((List.range c.t.pp).foldl
+      (fun s p => (c.stages.getD p []).reverse.foldl (precondLayer c p) s) (NeoxS.flush (NeoxS.flush s0)))) := by
+    intro s0 hs0
+    refine Inv_flush c _ (foldl_inv (Inv c) _ _ _ (Inv_flush c _ (Inv_flush c _ hs0)) ?_)
     intro s p hp hs
     exact foldl_inv (Inv c) _ _ _ hs
       (fun s l hl hs => Inv_precondLayer c h (List.mem_range.1 hp) s l (List.mem_reverse.1 hl) hs)
-  exact key
+  exact key _ (Inv_stepReduce c h s hs)
 
 theorem Inv_init (c : NeoxS.Cfg) : Inv c (St.init c) := by
   constructor <;> intro a ha <;> simp [St.init] at ha
@@ -441,5 +483,81 @@ theorem stepOp_pending (c : NeoxS.Cfg) (s : St) : Comm.pending (stepOp c s).comm
 theorem trainPass_silent (c : NeoxS.Cfg) (s : St) (h : s.steps % c.fus ≠ 0) : trainPass c s = s := by
   unfold trainPass
   simp [h]
+
+/-! ### passes that do not fire only gather -/
+
+/-- `s'` extends the script of `s` by collectives satisfying `P` only -/
+def Ext (P : NAct → Prop) (s s' : St) : Prop :=
+  ∃ extra, s'.acts = s.acts ++ extra ∧ ∀ a ∈ extra, P a
+
+theorem Ext.refl (P : NAct → Prop) (s : St) : Ext P s s := ⟨[], by simp, by simp⟩
+
+theorem Ext.trans {P : NAct → Prop} {s1 s2 s3 : St} (h12 : Ext P s1 s2) (h23 : Ext P s2 s3) :
+    Ext P s1 s3 := by
+  obtain ⟨e1, h1, p1⟩ := h12
+  obtain ⟨e2, h2, p2⟩ := h23
+  refine ⟨e1 ++ e2, by rw [h2, h1, List.append_assoc], ?_⟩
+  intro a ha
+  rcases List.mem_append.1 ha with ha | ha
+  · exact p1 a ha
+  · exact p2 a ha
+
+/-- a fold of functions each of which appends only acts satisfying `P` appends only such acts -/
+theorem foldl_ext {α : Type} (P : NAct → Prop) (f : St → α → St) : ∀ (l : List α) (s : St),
+    (∀ s x, x ∈ l → Ext P s (f s x)) → Ext P s (l.foldl f s)
+  | [], s, _ => Ext.refl P s
+  | x :: t, s, hf => by
+    rw [List.foldl_cons]
+    exact (hf s x (List.mem_cons_self ..)).trans
+      (foldl_ext P f t _ (fun s y hy => hf s y (List.mem_cons_of_mem _ hy)))
+
+theorem Ext_emitIf (P : NAct → Prop) (s : St) (g : List Nat) (k : Kind) (e r : Nat)
+    (hP : P { members := g, kind := k, elems := e, root := r }) : Ext P s (emitIf s g k e r) := by
+  unfold emitIf
+  split
+  · exact Ext.refl P s
+  · refine ⟨[_], rfl, ?_⟩
+    intro a ha
+    rw [List.mem_singleton.1 ha]; exact hP
+
+def IsGather (a : NAct) : Prop := a.kind = .allgather
+
+theorem Ext_gathers (c : NeoxS.Cfg) (p e : Nat) (s : St) :
+    Ext IsGather s
+      ((List.range c.t.dp).foldl (fun s d => emitIf s (modelGroup c p d) .allgather e 0) s) :=
+  foldl_ext IsGather _ _ s (fun s _ _ => Ext_emitIf IsGather s _ _ _ _ rfl)
+
+theorem Ext_fwdLayer (c : NeoxS.Cfg) (p : Nat) (s : St) (l : Layer) :
+    Ext IsGather s (fwdLayer c p false s l) := by
+  unfold fwdLayer
+  cases l.par
+  · exact Ext.refl _ s
+  · exact Ext_gathers c p _ s
+
+theorem Ext_bwdLayer (c : NeoxS.Cfg) (p : Nat) (s : St) (l : Layer) :
+    Ext IsGather s (bwdLayer c p false s l) := by
+  unfold bwdLayer
+  cases l.par
+  · exact Ext_gathers c p _ s
+  · exact Ext.refl _ s
+
+theorem pass_only_gathers_l (c : NeoxS.Cfg) (s : St)
+    (h : ¬ (c.hook = true ∧ (s.mini + 1) % c.accum = 0)) :
+    ∃ extra, (trainPass c s).acts = s.acts ++ extra ∧ ∀ a ∈ extra, a.kind = .allgather := by
+  have hfire : (c.hook && (s.mini + 1) % c.accum == 0) = false := by
+    cases hh : c.hook
+    · rfl
+    · simp only [Bool.true_and, beq_eq_false_iff_ne, ne_eq]
+      exact fun hm => h ⟨hh, hm⟩
+  show Ext IsGather s (trainPass c s)
+  unfold trainPass
+  split
+  · exact Ext.refl _ s
+  · simp only [hfire]
+    show Ext IsGather s ((List.range c.t.pp).foldl _ s)
+    refine foldl_ext IsGather _ _ s ?_
+    intro s p _
+    exact (foldl_ext IsGather _ _ s (fun s l _ => Ext_fwdLayer c p s l)).trans
+      (foldl_ext IsGather _ _ _ (fun s l _ => Ext_bwdLayer c p s l))
 
 end KV.C11S
